@@ -32,6 +32,7 @@ class TRig:
         self.spa = None
         self.facade = None
         self.client_sock = None
+        self.extra_clients = []
 
     @property
     def sim_block(self):
@@ -65,6 +66,23 @@ class TRig:
             spa.refresh = lambda: None  # the ping thread's periodic refresh would overlap our transfers
         return ok
 
+    def second_client(self, timeout=60):
+        """Another GeckoSpa object of the same process (own socket) connected to the same simulator."""
+        from geckolib.spa import GeckoSpa
+        from geckolib.spa_descriptor import GeckoSpaDescriptor
+
+        desc = GeckoSpaDescriptor(CLIENT_ID[:-1] + b"b", SPA_ID, "Sim", ("10.0.0.1", 10022))
+        spa2 = GeckoSpa(desc)
+        spa2._socket = self.net.socket()
+        with contextlib.redirect_stdout(io.StringIO()):
+            spa2.start_connect()
+            ok = self.s.run_until(lambda: spa2._is_connected, timeout)
+        if not ok:
+            return None
+        spa2.refresh = lambda: None
+        self.extra_clients.append(spa2)
+        return spa2
+
     @property
     def client_parms(self):
         a = self.client_sock.addr
@@ -94,6 +112,10 @@ class TRig:
     def close(self):
         with contextlib.redirect_stdout(io.StringIO()):
             try:
+                for c in self.extra_clients:
+                    with contextlib.suppress(Exception):
+                        if c.isopen:
+                            c.complete()
                 if self.facade is not None:
                     self.facade.complete()
                 elif self.spa is not None and self.spa.isopen:
